@@ -43,6 +43,9 @@ def shapes(tier, seed):
             out.append(('script', carrier, 0, 'err:' + kind, 0, 'ok'))
         out.append(('script', carrier, 0, None, 2, 'foreign'))
         out.append(('script', carrier, 1, 'foreign', 0, 'ok'))
+        # the provider's own infrastructure failure whose payload happens to be a SignatureError: returned unchanged (500), not unwrapped
+        out.append(('script', carrier, 0, None, 1, 'wrapped:ExpiredToken'))
+        out.append(('script', carrier, 0, 'wrapped:InvalidClientTokenId', 0, 'ok'))
         out.append(('script', carrier, 0, None, 10 ** 6, 'ok'))        # future never completes
         out.append(('script', carrier, 10 ** 6, None, 0, 'ok'))        # never ready
         out.append(('history', carrier, 'good-then-defective'))
@@ -56,6 +59,9 @@ def mk_err(spec):
     if spec == 'foreign':
         return BoxObj(Opaque('foreign_error', 'backend down'), dyn='StringError')
     kind = spec.split(':', 1)[1]
+    if spec.startswith('wrapped:'):
+        inner = BoxObj(sig_error(kind, 'inner says ' + kind), dyn='SignatureError')
+        return BoxObj(Adt('SignatureError', 'InternalServiceError', [inner]), dyn='SignatureError')
     return BoxObj(sig_error(kind, 'provider says ' + kind), dyn='SignatureError')
 
 
@@ -181,6 +187,11 @@ def run_shape(prog, shape, tier, seed, res):
                             fail('foreign provider error surfaced as %s, expected InternalServiceError' % kind_)
                         else:
                             res.witnesses.add('foreign->InternalServiceError')
+                    elif expect_err.startswith('wrapped:'):
+                        if kind_ != 'InternalServiceError':
+                            fail('provider error InternalServiceError(%s) returned as %s' % (expect_err.split(':', 1)[1], kind_))
+                        else:
+                            res.witnesses.add('provider-error-passed-through')
                     else:
                         ek = expect_err.split(':', 1)[1]
                         if kind_ != ek or not msg.startswith(b'provider says ' + ek.encode()):
@@ -215,6 +226,8 @@ def native_script(rp, request_json, script, server=T0):
         if spec == 'foreign':
             return {'foreign': 'backend down'}
         k = spec.split(':', 1)[1]
+        if spec.startswith('wrapped:'):
+            return {'sig': {'kind': 'InternalServiceError', 'msg': 'wrap:%s:inner says %s' % (k, k)}}
         return {'sig': {'kind': k, 'msg': 'provider says ' + k}}
     prov = {'ready_pending': min(p, 2000), 'ready_err': ne(rerr) if rerr else None, 'future_pending': min(qq, 2000),
             'result': {'signing_key_hex': '00' * 32} if result == 'ok' else {'err': ne(result)}}
@@ -247,7 +260,7 @@ def replay_finding(rp, f):
         bad = True
     if provider_failed and consulted and 'err' in res:
         spec = script[3] or script[5]
-        want = 'InternalServiceError' if spec == 'foreign' else spec.split(':', 1)[1]
+        want = 'InternalServiceError' if (spec == 'foreign' or spec.startswith('wrapped:')) else spec.split(':', 1)[1]
         if res['err']['kind'] != want:
             bad = True
     return bad, {'native_result': res.get('err', {}).get('kind', 'ok' if 'ok' in res else res), 'native_events': ev, 'pre_defect': pre}
